@@ -2,6 +2,7 @@ package props
 
 import (
 	"errors"
+	"fmt"
 	"io"
 
 	"github.com/bytedance/gopkg/lang/mcache"
@@ -100,8 +101,36 @@ func checkIs(c *sim.Ctx, site string, err, injected error, what string) {
 
 // streamErrorClause: failures of the stream reader caused by the underlying reader wrap
 // that reader's error so that it stays matchable with errors.Is.
+// errWrapsProto is a source error that merely wraps a protocol exception (a lower layer that
+// decorates what it got from a peer): it is the source's own error value all the same.
+var errWrapsProto = fmt.Errorf("sim: frame 7: %w", thrift.NewProtocolException(4, "inner bad version"))
+
 func streamErrorClause(c *sim.Ctx, cfg, st *sim.Stream) {
 	injected := sim.TermError(st.Choose(sim.NumTermErrors))
+	if st.Chance(1, 10) {
+		injected = errWrapsProto
+	}
+	if c.Tier == "thorough" && st.Chance(1, 4000) {
+		// a value beyond 10 MiB whose source fails late in the payload
+		n := 10<<20 + 1 + st.Choose(1<<20)
+		e := &ref.Encoder{}
+		e.U32(uint32(n))
+		e.Bytes(sim.KeyedBytes(uint64(c.Index), 0, n))
+		cut := 4 + 10<<20 + st.Choose(n-10<<20)
+		scfg := sim.RandomSourceCfg(cfg, len(e.Buf))
+		scfg.ErrAt, scfg.Err = cut, injected
+		src := sim.NewSource(c, "big", e.Buf, scfg)
+		src.BeginCall(len(e.Buf))
+		dr := bufiox.NewDefaultReader(src)
+		br := thrift.NewBufferReader(dr)
+		var err error
+		c.Guard("ReadBinary/BufferReader", func() { _, err = br.ReadBinary() })
+		c.Count("probe.late_failure_in_value_beyond_10MiB")
+		checkIs(c, "ReadBinary/BufferReader", err, injected, "Binary(11 MiB)")
+		br.Recycle()
+		dr.Release(nil)
+		return
+	}
 	if st.Chance(1, 3) {
 		// a value tree skipped with BufferReader.Skip
 		o := &ref.GenOpts{BigString: st.Chance(1, 5), MaxDepth: 5}
